@@ -1,5 +1,7 @@
 pub mod common;
 pub mod engine;
+pub mod fuzz;
+pub mod fuzzdec;
 pub mod oracle {
     pub mod refcodec;
     pub mod refcrc;
